@@ -11,6 +11,11 @@ All statements are about the functions the driver executes (`Pun.Expr.evalIvl`,
 `Pun.Expr.evalPt`, `Pun.B2B.tiles`, `corners`, `direct`, `endpoints`,
 `subinterval`).  `φ` (the values of exp / sqrt) is arbitrary; only
 monotonicity on the domain is assumed (`Mono φ`).
+
+★ `fundamental` / `direct_encloses`, `direct_isotone` (unconditional; `binVal_total` characterises when an operator
+raises), `tiles_cover`, `tiles_within`, `tiles_reach_ends`, `tiles_interior_disjoint` (all `d`, `n`),
+`subdirect_encloses`, `subdirect_within_direct`, `subdirect_total`, `subdirect_refines`, `endpoints_minmax_corners`,
+`endpoints_inside_range`, `monotone_exact`, `subendpoints_between`, `nesting_chain` (the whole chain), `evalIvl_degenerate` (zero width is preserved).
 -/
 set_option linter.unusedSimpArgs false
 set_option linter.unusedVariables false
@@ -1582,5 +1587,111 @@ theorem tiles_degenerate (box : Box) (n : Nat) (hd : ∀ p ∈ box, p.1 = p.2) (
         rw [← hpd, knot_degenerate, knot_degenerate]
         exact Prod.ext rfl hpd
     rw [this, ih (fun r hr => hd r (by simp [hr])) t' ht']
+
+/-! ## refinement: a tiling with `n·m` tiles per side refines the one with `n` -/
+
+theorem knot_refine (lo hi : Rat) (n m i : Nat) (hn : n ≠ 0) (hm : m ≠ 0) :
+    knot lo hi (n * m) (i * m) = knot lo hi n i := by
+  have h1 : (n : Rat) ≠ 0 := Nat.cast_ne_zero.mpr hn
+  have h2 : (m : Rat) ≠ 0 := Nat.cast_ne_zero.mpr hm
+  unfold knot
+  push_cast
+  field_simp
+
+/-- one side: every tile of the finer subdivision lies inside a tile of the coarser one -/
+theorem tiles1_refine (p : Rat × Rat) (hp : p.1 ≤ p.2) (n m : Nat) (hm : 1 ≤ m) (q : Rat × Rat)
+    (hq : q ∈ tiles1 p (n * m)) : ∃ q' ∈ tiles1 p n, q'.1 ≤ q.1 ∧ q.1 ≤ q.2 ∧ q.2 ≤ q'.2 := by
+  by_cases hn : n ≤ 1
+  · refine ⟨p, by simp [tiles1, hn], ?_⟩
+    exact tiles1_within p (n * m) hp q hq
+  · have hn2 : 2 ≤ n := by omega
+    have hN : ¬ n * m ≤ 1 := by
+      have : 2 * 1 ≤ n * m := Nat.mul_le_mul hn2 hm
+      omega
+    unfold tiles1 at hq
+    rw [if_neg hN] at hq
+    obtain ⟨j, hj, rfl⟩ := List.mem_map.mp hq
+    have hj' : j < n * m := List.mem_range.mp hj
+    have hmpos : 0 < m := by omega
+    have hi : j / m < n := by
+      rw [Nat.div_lt_iff_lt_mul hmpos]; exact hj'
+    refine ⟨(knot p.1 p.2 n (j / m), knot p.1 p.2 n (j / m + 1)), ?_, ?_, ?_, ?_⟩
+    · unfold tiles1; rw [if_neg hn]
+      exact List.mem_map.mpr ⟨j / m, List.mem_range.mpr hi, rfl⟩
+    · show knot p.1 p.2 n (j / m) ≤ knot p.1 p.2 (n * m) j
+      rw [← knot_refine p.1 p.2 n m (j / m) (by omega) (by omega)]
+      exact knot_mono _ _ _ hp _ _ (Nat.div_mul_le_self j m)
+    · exact knot_mono _ _ _ hp _ _ (by omega)
+    · show knot p.1 p.2 (n * m) (j + 1) ≤ knot p.1 p.2 n (j / m + 1)
+      rw [← knot_refine p.1 p.2 n m (j / m + 1) (by omega) (by omega)]
+      apply knot_mono _ _ _ hp
+      have := Nat.lt_div_mul_add hmpos (a := j)
+      rw [Nat.add_mul, Nat.one_mul]
+      omega
+
+/-- ★ every tile of the `n·m` tiling is a sub-box of a tile of the `n` tiling -/
+theorem tiles_refine (box : Box) (hv : ValidBox box) (n m : Nat) (hm : 1 ≤ m) (t : Box) (ht : t ∈ tiles box (n * m)) :
+    ∃ t' ∈ tiles box n, SubBox t t' := by
+  have h := (mem_prodL _ _).mp ht
+  clear ht
+  have : ∃ t', List.Forall₂ (fun a l => a ∈ l) t' (box.map (fun p => tiles1 p n)) ∧ SubBox t t' := by
+    induction box generalizing t with
+    | nil => simp only [List.map_nil, List.forall₂_nil_right_iff] at h; subst h; exact ⟨[], .nil, .nil⟩
+    | cons p ps ih =>
+      simp only [List.map_cons, List.forall₂_cons_right_iff] at h
+      obtain ⟨q, u, hq, hu, rfl⟩ := h
+      obtain ⟨u', hu', hsub⟩ := ih (fun r hr => hv r (by simp [hr])) u hu
+      obtain ⟨q', hq', hb⟩ := tiles1_refine p (hv p (by simp)) n m hm q hq
+      exact ⟨q' :: u', by simp only [List.map_cons]; exact .cons hq' hu', .cons hb hsub⟩
+  obtain ⟨t', ht', hs⟩ := this
+  exact ⟨t', (mem_prodL _ _).mpr ht', hs⟩
+
+/-- ★ refining the subdivision can only tighten subinterval reconstitution with direct evaluation:
+the `n·m` result is contained in the `n` result (and both contain the range, `subdirect_encloses`) -/
+theorem subdirect_refines (φ : UFun → Rat → Rat) (hφ : Mono φ) (e : Expr) (box : Box) (hv : ValidBox box) (n m : Nat)
+    (hm : 1 ≤ m) (V1 V2 : Val) (h1 : subinterval φ e box (some .direct) (some n) = .ok V1)
+    (h2 : subinterval φ e box (some .direct) (some (n * m)) = .ok V2) : V1.lo ≤ V2.lo ∧ V2.hi ≤ V1.hi := by
+  simp only [subinterval, bind, Except.bind] at h1 h2
+  split at h1
+  · cases h1
+  · rename_i rs1 hrs1
+    split at h2
+    · cases h2
+    · rename_i rs2 hrs2
+      have hall1 := mapM_ok _ _ _ hrs1
+      have hall2 := mapM_ok _ _ _ hrs2
+      obtain ⟨hs1, _, _⟩ := reconstitute_spec h1
+      obtain ⟨_, ⟨ra, hra, ea⟩, ⟨rb, hrb, eb⟩⟩ := reconstitute_spec h2
+      have key : ∀ r ∈ rs2, V1.lo ≤ r.lo ∧ r.hi ≤ V1.hi := by
+        intro r hr
+        obtain ⟨t, ht, het⟩ := forall₂_right hall2 r hr
+        obtain ⟨t', ht', hsub⟩ := tiles_refine box hv n m hm t ht
+        obtain ⟨r', hr', het'⟩ := forall₂_left hall1 t' ht'
+        obtain ⟨i, _, _⟩ := direct_incl_of_ok φ hφ e t t' hsub r r' het het'
+        exact ⟨le_trans (hs1 r' hr').1 i.1, le_trans i.2 (hs1 r' hr').2⟩
+      exact ⟨by rw [← ea]; exact (key ra hra).1, by rw [← eb]; exact (key rb hrb).2⟩
+
+/-! ## the whole chain of the property in one statement -/
+
+/-- ★ vertex ⊆ subinterval/vertex ⊆ (true range) ⊆ subinterval/direct ⊆ direct, for every expression, box,
+dimension and subdivision count: the four results nest, the two inner ones have their ends attained by the
+function on the box and the two outer ones contain every value of the function on the box -/
+theorem nesting_chain (φ : UFun → Rat → Rat) (hφ : Mono φ) (e : Expr) (box : Box) (hv : ValidBox box) (n : Nat)
+    (E SE SD D : Val) (hE : endpoints φ e box = .ok E) (hSE : subinterval φ e box (some .endpoints) (some n) = .ok SE)
+    (hSD : subinterval φ e box (some .direct) (some n) = .ok SD) (hD : direct φ e box = .ok D) :
+    (SE.lo ≤ E.lo ∧ E.hi ≤ SE.hi) ∧ (SD.lo ≤ SE.lo ∧ SE.hi ≤ SD.hi) ∧ (D.lo ≤ SD.lo ∧ SD.hi ≤ D.hi) ∧
+    (∀ x, InBox x box → ∃ y, evalPt φ x e = .ok y ∧ SD.lo ≤ y ∧ y ≤ SD.hi) ∧
+    (∃ x, InBox x box ∧ evalPt φ x e = .ok SE.lo) ∧ (∃ x, InBox x box ∧ evalPt φ x e = .ok SE.hi) := by
+  obtain ⟨h1, ⟨x1, hx1, e1⟩, ⟨x2, hx2, e2⟩⟩ := subendpoints_between φ e box hv n SE hSE
+  have enc := subdirect_encloses φ hφ e box n SD hSD
+  refine ⟨h1 E hE, ?_, subdirect_within_direct φ hφ e box hv n SD D hSD hD, enc, ⟨x1, hx1, e1⟩, ⟨x2, hx2, e2⟩⟩
+  obtain ⟨y1, hy1, a1, _⟩ := enc x1 hx1
+  obtain ⟨y2, hy2, _, b2⟩ := enc x2 hx2
+  rw [e1] at hy1; rw [e2] at hy2
+  cases hy1; cases hy2
+  exact ⟨a1, b2⟩
+
+example : ValidBox [(-1, 2), (3, 5)] := by
+  intro p hp; simp at hp; rcases hp with rfl | rfl <;> norm_num
 
 end Pun.B2B
